@@ -130,12 +130,17 @@ def write_world(d: Path, w: Dict[str, Any]) -> Path:
     rhead = ["request_id", "o_lat", "o_lon", "d_lat", "d_lon", "departure_time", "passengers"]
     if has_fleets:
         rhead.append("fleet_id")
+    has_pool = any(r.get("pool") for r in w["requests"])
+    if has_pool:
+        rhead.append("allows_pooling")
     rows = []
     for r in w["requests"]:
         row = [r["id"], f"{r['o'][0]:.7f}", f"{r['o'][1]:.7f}", f"{r['d'][0]:.7f}", f"{r['d'][1]:.7f}",
                r["dep"], r.get("pax", 1)]
         if has_fleets:
             row.append(r.get("fleet") or "")
+        if has_pool:
+            row.append("true" if r.get("pool") else "")     # hive reads bool(<text>): empty = False
         rows.append(row)
     csv(d / "requests" / "requests.csv", rhead, rows)
     srows = []
